@@ -1,6 +1,6 @@
 #!/usr/bin/env python3
-"""Refresh lean/RoGen/OpsGen.snapshot: the committed copy of the operator machines regenerated from
-the PINNED tree (/repo). tools/checks/C04_gen.py diffs the machines regenerated at check time
+"""Refresh lean/RoGen/OpsGen.snapshot and SubjGen.snapshot: the committed copies of the operator machines and
+subject methods regenerated from the PINNED tree (/repo). tools/checks/C04_gen.py diffs the machines regenerated at check time
 against it to name the operator that changed. Run this only when the pinned tree or the translator
 changed and RoProps/C04gen.lean builds again; never at check time.   usage: tools/opgen_snapshot.py [--check]"""
 import os, shutil, subprocess, sys
@@ -12,15 +12,21 @@ if os.environ.get('VERIF_REPO') and os.path.realpath(os.environ['VERIF_REPO']) !
 ok, out = R.build_go()
 if not ok:
     sys.exit(out)
-gen = os.path.join(R.LEAN, 'RoGen', 'OpsGen.lean')
-snap = os.path.join(R.LEAN, 'RoGen', 'OpsGen.snapshot')
 subprocess.run([os.path.join(R.GO, 'bin', 'extract'), '-repo', R.REPO, '-out', os.path.join(R.LEAN, 'RoGen')], check=True)
-if '--check' in sys.argv:
-    same = os.path.exists(snap) and open(snap).read() == open(gen).read()
-    print('snapshot is current' if same else 'snapshot is STALE')
-    sys.exit(0 if same else 1)
-ok, out = R.lake_build(['RoProps.C04gen'])
-if not ok:
-    sys.exit('RoProps.C04gen does not build on the pinned tree; not snapshotting\n' + out[-3000:])
-shutil.copyfile(gen, snap)
-print('wrote', snap)
+# (generated file, snapshot, the property module that has to build before a snapshot is taken)
+PAIRS = [('OpsGen.lean', 'OpsGen.snapshot', 'RoProps.C04gen'), ('SubjGen.lean', 'SubjGen.snapshot', 'RoProps.C10gen')]
+rc = 0
+for g, sn, mod in PAIRS:
+    gen = os.path.join(R.LEAN, 'RoGen', g)
+    snap = os.path.join(R.LEAN, 'RoGen', sn)
+    if '--check' in sys.argv:
+        same = os.path.exists(snap) and open(snap).read() == open(gen).read()
+        print(sn, 'is current' if same else 'is STALE')
+        rc |= 0 if same else 1
+        continue
+    ok, out = R.lake_build([mod])
+    if not ok:
+        sys.exit(mod + ' does not build on the pinned tree; not snapshotting\n' + out[-3000:])
+    shutil.copyfile(gen, snap)
+    print('wrote', snap)
+sys.exit(rc)
